@@ -371,7 +371,13 @@ def build_unit(template, repo, out_path, contracts_dir=None, vacuity=False):
             for o in opts:
                 if o.startswith("attr="):
                     out.append(o[5:])  # verifier attribute (ghost): e.g. #[verifier::reject_recursive_types(D)]
-            out.append("pub " + text)
+            if text.startswith("#["):
+                # derive attribute first, then the (public) item
+                attr, _, rest_ = text.partition("\n")
+                out.append(attr)
+                out.append("pub " + rest_)
+            else:
+                out.append("pub " + text)
             out.append("// <<<")
             i += 1
             continue
